@@ -64,7 +64,7 @@ TNext ==
                          ELSE [x.w EXCEPT !.cl[a.c] = ObsCl(line.cl), !.db[a.c] = ObsDb(line.db),
                                           (* a client that is observed down has no subscriptions left *)
                                           !.q[a.c] = IF line.cl.up THEN x.w.q[a.c] ELSE EmptyQ]
-                  sf  == StepFold(g, wo, a, line.out, w1)
+                  sf  == IF can THEN StepFold(g, wo, a, line.out, w1) ELSE [g |-> g, obs |-> {}]   \* monitors need the notification
                   same == a.c = 0 \/ (x.out = line.out /\ x.w.cl[a.c] = w1.cl[a.c] /\ x.w.db[a.c] = w1.db[a.c])
               IN
               /\ wo' = w1
